@@ -12,6 +12,17 @@ CHECKS = {
    note="SHA-256 / rs_merkle collision freedom; nothing claimed beyond the length bound.",
    technique="bounded exhaustive enumeration of all input pairs against a reference (prefix) model, executed on the real CommitTree/CommitProof code",
    design_ref="DESIGN.md §5 C08"),
+ "C14": dict(engine="codecx", level="exploration",
+   text="Structure enumerator over 23 binary types (incl. all 15 secret kinds x 11 user-data shapes, SecretMeta with every field varied independently and in combination, all event variants, proofs from real trees, boundary timestamps), 30 protobuf wire types and the database row conversions: decode(encode(x)) is compared with x under the harness's own deep projection (the repository's partial PartialEq impls are not trusted), encoding twice is byte-identical and, for types hashed into commits, encode(decode(encode(x))) == encode(x). Cartesian within the stated per-type bounds.",
+   note="Plaintext types containing HashSet/HashMap are compared as sets only; the shared-access list of a vault header is not compared for database folder rows (no column; unused feature); nothing is claimed for values outside the enumerated shapes.",
+   technique="bounded exhaustive enumeration of structured values per type against a deep-equality round-trip oracle on the real encoders/decoders",
+   design_ref="DESIGN.md §5 C14"),
+ "C15": dict(engine="fuzzx", level="exploration",
+   text="Mutation enumerator over one valid encoding per variant (137 seeds quick / 405 thorough) and 76 entry points (binary decoders, decode_event, wire decoders, relay packets, FormatStream forward and reverse over mutated event-log and vault files, load_tree, diff_records, header readers, FromStr parsers): truncation at every offset, every bit flip, every byte to boundary values (all 256 in thorough), every aligned/unaligned u32 position to boundary lengths. Each case runs in a worker under RLIMIT_AS with a watchdog and a counting allocator: panic, abort, timeout and allocation out of proportion are violations attributed to the exact input.",
+   note="Overflow checks are on (dev profile): arithmetic overflow counts as a panic; wire panics contained by spawn_blocking are errors by design and only counted; archives and live HTTP are covered by other checks when built.",
+   technique="bounded exhaustive enumeration of single-point mutations of valid encodings, executed on the real decoders in isolated subprocesses",
+   design_ref="DESIGN.md §5 C15"),
+
  "C04": dict(engine="syncx", level="model_checking",
    text="Every world within the bounds is executed on a real in-process server (axum on loopback, real ServerStorage) and real LocalAccounts bridged by the real sos_net::RemoteBridge: all pairs of offline suffixes (length <=1 over 12 edit kinds touching folder, account and identity logs incl. byte-identical events; length <=2 over 4 kinds, all unequal-length combinations) x both sync orders x clock patterns (one device older / all timestamps tied; thorough adds the reverse, interleaved clocks, 3 devices, sqlite on client and server), followed by rounds until quiescent. Oracle: after the rounds every device's sync status equals the server's for every log unless its last sync reported an error; replicas with equal status serve equal decrypted folders, including a third device that only pulls.",
    note="Devices are driven one at a time (interleavings are C09's business); timestamps come from per-device logical clocks (hook H1); a device whose sync keeps returning an error is not counted as a violation because the property speaks about successful syncs (such worlds are counted in the evidence).",
